@@ -517,8 +517,10 @@ func topLevelFieldBoundaries(b []byte) []int {
 
 func genC20Doc(seed int, id string, size int) []byte {
 	doc := rapid.Custom(func(t *rapid.T) *sbom.Document {
-		d := &sbom.Document{}
-		hx.Populate(t, "doc", d.ProtoReflect(), hx.PopOpts{Depth: 3, MaxRep: 3, FillProb: 60})
+		// (a well-formed graph: a store may validate what it persists)
+		d := &sbom.Document{Metadata: &sbom.Metadata{}}
+		hx.Populate(t, "md", d.Metadata.ProtoReflect(), hx.PopOpts{Depth: 3, MaxRep: 3, FillProb: 60})
+		d.NodeList = hx.GenNodeList(t, "nl", hx.GraphOpts{WellFormed: true, Normalised: true, MaxNodes: 4, MaxEdges: 4})
 		return d
 	}).Example(seed)
 	if doc.Metadata == nil {
